@@ -26,6 +26,11 @@ def gen(rng, n):
         seq = ["A 1 1 1", "A 0 1 1", "A 1 1 1", "K l", "A 1 0 1", "A 1 1 1"]
         for pos in range(len(seq) + 1):
             hs.append(["N %d" % size] + seq[:pos] + ["X"] + seq[pos:] + ["E"])
+    # a registered session's peer goes silent (nothing closed): the real establisher configuration must notice, free the slot, heal
+    for size in (1, 2):
+        hs.append(["N %d role=establisher" % size] + ["A 1 1 1"] * size + ["KS", "A 1 1 1", "E"])
+        hs.append(["N %d role=establisher" % size, "A 1 1 1", "KS", "E", "A 1 1 1", "A 1 1 1", "E"])
+    hs.append(["N 2 role=establisher", "A 1 1 1", "A 0 1 1", "A 1 0 1", "A 1 1 0", "A 1 1 1", "K r", "A 1 1 1", "X", "E"])
     for _ in range(n):
         size = rng.range(1, 4)
         h = ["N %d" % size]
@@ -97,6 +102,10 @@ def monitor(h, lines):
     bad = []
     size = int(h[0].split()[1])
     cancelled = False
+    for l in lines:
+        if l.startswith("= ") and "zombie=" in l:
+            bad.append("a session whose peer went silent is still registered 45s later: " + l)
+            break
     evs = [l for l in h]
     st = states(lines)
     for k, l in enumerate(st):
